@@ -58,7 +58,10 @@ All rights reserved.
 #include <functional>
 
 #ifndef IP_DONTFRAGMENT
-#define IP_DONTFRAGMENT 1
+// this platform does not have the option. Use the value it has where it
+// exists (windows). It must not be the number of an option that may be set on
+// this platform: 1 is IP_TOS on linux, 14 is IP_MTU, which can only be read
+#define IP_DONTFRAGMENT 14
 #endif
 
 namespace sim
@@ -221,7 +224,9 @@ namespace sim
 		void set_option(Option const& opt, boost::system::error_code&)
 		{
 			Protocol const p = Protocol::v4();
-			(void)p;
+			// option numbers are only unique within their level. SO_DEBUG,
+			// SO_OOBINLINE etc. have nothing to do with fragmentation
+			if (opt.level(p) != IPPROTO_IP) return;
 #ifdef IP_DONTFRAG
 			if (opt.name(p) == IP_DONTFRAG)
 				m_dont_fragment = *reinterpret_cast<int const*>(opt.data(p)) != 0;
